@@ -189,12 +189,74 @@ def check(ctx):
     ctx.count("elemwise_method_bindings", n_n)
     ctx.floor("elemwise_method_bindings", 40)
     T.argpos(ctx, lambda p: p in (EX, COL), "c36", floor=100)
+    # ---------------- ALG.distributive: rewriting a filter (A&B)|(A&C) -> A&(B|C)
+    mod_ex = model.module(EX)
+    rc = mod_ex.func("_replace_common_or_components")
+    apps = find("replacements.append(M_c)", rc)
+    ok = len(apps) == 1
+    if ok:
+        facts = [(unparse(e), pol) for e, pol in cfg_of(rc).facts(apps[0][0])]
+        ok = ("all((c in comp for comp in and_components))", True) in facts
+    ctx.ob("ALG.distributive.common-to-all", rc, "a conjunct is pulled out of the disjunction only if it occurs in ALL disjuncts", ok, "" if ok else "a conjunct that is missing from one disjunct is factored out: (A&B)|(A&C)|D becomes A&(B|C|D) and rows matching only D are dropped")
+    ok = bool(find("outer_component = outer_component & mapping[r]", rc)) and bool(find("or_component = or_component | c", rc)) and any(unparse(r.value) == "outer_component & or_component" for r in returns(rc))
+    ctx.ob("ALG.distributive.shape", rc, "result = (conjunction of the common conjuncts) & (disjunction of the remainders)", ok)
+    ok = bool(find("keep_components = [c for c in comp if c not in replacements]", rc)) and bool(find("result_component = result_component & comp[c]", rc))
+    ctx.ob("ALG.distributive.remainder", rc, "each disjunct keeps exactly its non-common conjuncts, and-ed together", ok)
+    # ---------------- CALLCONV: how Blockwise classes call the pandas method they wrap
+    # operation = M.<method>; positional arguments = _parameters (after the frame) that are not in
+    # _keyword_only, in that order; keywords = _keyword_only (Blockwise._args / _kwargs).  The pandas
+    # signatures (Series / DataFrame / Index variants) are a fact table about pandas, frozen in
+    # pandas_sigs.json (generated once from the installed pandas; pandas is not imported by the check).
+    import json as _json
+    import os as _os
+
+    with open(_os.path.join(_os.path.dirname(_os.path.abspath(__file__)), "pandas_sigs.json")) as fh:
+        SIGS = _json.load(fh)
+    from ..exprmodel import ExprModel
+
+    em = ExprModel(model)
+    n_cc = 0
+    for ci in em.classes:
+        if not ci.module.relpath.startswith("dask/dataframe/dask_expr/"):
+            continue
+        owner, val = ci.lookup("operation")
+        if val is None or not (isinstance(val, ast.Attribute) and unparse(val).startswith("M.")):
+            continue
+        meth = val.attr
+        params = em.parameters(ci)
+        if params is None or meth not in SIGS or not SIGS[meth]:
+            continue
+        ko = em.keyword_only(ci) or []
+        variants = SIGS[meth]
+        allp = {p_ for v in variants.values() for p_ in v}
+        pos = [p_ for p_ in params[1:] if p_ not in ko]
+        n_cc += 1
+        # positional: some pandas variant has every recognised name at the very index it is passed at
+        named = [(i, p_) for i, p_ in enumerate(pos) if p_ in allp]
+        ok = not named or any(all(p_ in v and v.index(p_) == i for i, p_ in named) for v in variants.values())
+        ctx.ob("CALLCONV.positional", ci.node, f"{ci.name}: positional operands {pos} line up with pandas {meth}{tuple(next(iter(variants.values())))[:4]}...", ok, "" if ok else f"no pandas variant of {meth} takes {[p_ for _, p_ in named]} at positions {[i for i, _ in named]}: {variants}")
+        # keywords: reach pandas only through _kwargs; an override that returns {} drops them
+        kown, kval = ci.lookup("_kwargs")
+        dropped = []
+        if kown is not None and kown.name != "Blockwise":
+            body = kown.own_methods.get("_kwargs")
+            if body is not None:
+                rets = returns(body)
+                empties = all(isinstance(r.value, ast.Dict) and not r.value.keys for r in rets) and bool(rets)
+                if empties:
+                    dropped = [p_ for p_ in ko if p_ in allp]
+        ctx.ob("CALLCONV.keywords-reach", ci.node, f"{ci.name}: keyword-only operands {ko} that pandas {meth} understands are forwarded", not dropped, "" if not dropped else f"{dropped} are keyword-only but {kown.name}._kwargs returns {{}}: the option never reaches pandas and is silently ignored")
+    ctx.count("pandas_call_conventions", n_cc)
+    ctx.floor("pandas_call_conventions", 45, "Blockwise classes wrapping a pandas method (operation = M.x)")
     from ._claims import check_claims
 
     check_claims(ctx)
 
 
 VARIANTS = [
+    (EX, "        if all(c in comp for comp in and_components):", "        if any(c in comp for comp in and_components):", "ALG.distributive.common-to-all"),
+    (EX, '    _keyword_only = ["meta", "is_monotonic"]\n    operation = M.map', '    _keyword_only = ["na_action", "meta", "is_monotonic"]\n    operation = M.map', "CALLCONV.keywords-reach"),
+    (EX, '    _parameters = ["frame", "left", "right", "inclusive"]', '    _parameters = ["frame", "right", "left", "inclusive"]', "CALLCONV.positional"),
     (EX, "    def __rsub__(self, other):\n        return Sub(other, self)", "    def __rsub__(self, other):\n        return Sub(self, other)", "ALG.operators.expr-operands"),
     (EX, "    def __truediv__(self, other):\n        return Div(self, other)", "    def __truediv__(self, other):\n        return FloorDiv(self, other)", "ALG.operators.expr-operation"),
     (EX, "class Sub(Binop):\n    operation = operator.sub", "class Sub(Binop):\n    operation = operator.add", "ALG.operators"),
